@@ -29,6 +29,8 @@ def num(v):
 
 
 def arr(a):
+    if hasattr(a, "detach"):
+        a = a.detach()
     if hasattr(a, "tolist"):
         a = a.tolist()
     if isinstance(a, (list, tuple)):
@@ -111,6 +113,17 @@ def shares(a, b):
 
 
 def poke(o):
+    import contextlib
+    try:
+        import torch
+        ctx = torch.no_grad()
+    except Exception:
+        ctx = contextlib.nullcontext()
+    with ctx:
+        return _poke(o)
+
+
+def _poke(o):
     n = 0
     for b in buffers(o):
         if isinstance(b, numpy.ndarray):
@@ -376,6 +389,8 @@ class C17(Prop):
                     yield {"k": "copy", "kind": kind, "v": v}
                     if v < 6:
                         yield {"k": "copy", "kind": kind, "v": v, "how": ("deepcopy", "pickle")[v % 2]}
+                    if kind == "PauliPolynomial" and v < 4:
+                        yield {"k": "copy", "kind": kind, "v": v, "grad": True, "pkg": "torch"}
         # queries are functions of the receiver's current value: asked again after the first answer was scribbled
         # on, and asked after an in-place change, they answer like a freshly built object does
         for kind in kinds:
@@ -449,6 +464,9 @@ class C17(Prop):
             how = scn.get("how", "copy")
             try:
                 o = K.new(kind, scn["v"])
+                if scn.get("grad"):
+                    o.cs.requires_grad_(True)          # trainable coefficients: copies must still be independent
+                    rec["grad"] = True
                 if how == "copy" and not hasattr(o, "copy"):
                     return []            # (pyclifford.Circuit has no copy method)
                 rec["orig"] = fz(val(o))
